@@ -167,6 +167,178 @@ def c12_oracle(case, obs):
                         l["port"] == dport and h == dst for (h, lid), l in listeners.items()):
                     out.append(("connect from host %d to %d:%d still pends at step %d although its SYN arrived at step %d "
                                 "where nobody listens" % (src, dst, dport, later[0][0], arrive), None))
+    # ---- which SYN on the links belongs to which connector -----------------------------------------
+    syn_of = {}          # cid -> (src host, sport, dport, a, b, first step seen)
+    prev_syns = set()
+    for k, st in enumerate(case["steps"]):
+        cur = []
+        for a, b, msgs in obs["post"][k][0]:
+            for m in msgs:
+                if m[1] == "syn":
+                    cur.append((m[0], m[4], m[5], a, b))
+        fresh = [x for x in cur if x not in prev_syns]
+        for h in range(n):
+            for i, cmd in enumerate(st.get("hosts", {}).get(str(h), [])):
+                if cmd[0] in ("connect", "connect_t") and isinstance(cmd[2], dict):
+                    d = cmd[2].get("h", cmd[2].get("name"))
+                    if d == h:
+                        continue
+                    cand = [x for x in fresh if x[0] == h and x[2] == cmd[3] and {x[3], x[4]} == {h, d}]
+                    if cand:
+                        syn_of[cmd[1]] = cand[0] + (k,)
+                        fresh.remove(cand[0])
+        prev_syns = set(cur)
+    # ---- partitioned direction: refused, not a hang ---------------------------------------------------
+    cut = set()
+    cut_at = {}          # step -> set of cut directions after the controller phase of that step
+    for k, st in enumerate(case["steps"]):
+        for act in st["ctl"]:
+            a, b = act[1], act[2]
+            if act[0] == "partition":
+                cut |= {(a, b), (b, a)}
+            elif act[0] == "partition_oneway":
+                cut.add((a, b))
+            elif act[0] in ("hold", "release"):
+                cut -= {(a, b), (b, a)}
+        cut_at[k] = set(cut)
+    for cid, c in conn.items():
+        if isinstance(c["dst"], dict):
+            d = c["dst"].get("h", c["dst"].get("name"))
+            if d != c["host"] and (c["host"], d) in cut_at.get(c["step"], set()):
+                first = c["results"][0][1]
+                if first != ["err", "ConnectionRefused"]:
+                    out.append(("connect %d from host %d to host %d across a partitioned direction returned %s instead "
+                                "of ConnectionRefused" % (cid, c["host"], d, first), None))
+    for cid, sy in syn_of.items():
+        src, sport, dport, a, b, k0 = sy
+        c = conn[cid]
+        # the SYN was still on the link when its direction was partitioned: it is dropped
+        last = syn_seen.get((src, sport, dport, a, b))
+        dst = b if src == a else a
+        if last is not None and last + 1 < len(obs["post"]) and (src, dst) in cut_at.get(last + 1, set()) \
+                and (src, dst) not in cut_at.get(last, set()):
+            later = [(k, r) for (k, r) in c["results"] if k > last + 1]
+            if later and later[0][1] == "pending":
+                out.append(("connect %d: its SYN was in flight when the direction %d->%d was partitioned at step %d, "
+                            "but it still pends at step %d" % (cid, src, dst, last + 1, later[0][0]), None))
+    # ---- listener dropped before accepting: refused ----------------------------------------------------
+    for cid, sy in syn_of.items():
+        src, sport, dport, a, b, k0 = sy
+        c = conn[cid]
+        last = syn_seen.get((src, sport, dport, a, b))
+        if last is None or last + 1 >= len(obs["post"]) or any(p == last + 1 for p in parts.get((a, b), [])):
+            continue
+        arrive = last + 1
+        dst = b if src == a else a
+        inst = [(lid, l) for (h, lid), l in listeners.items()
+                if h == dst and l["port"] == dport and l["from"] < arrive and (l["to"] is None or l["to"] >= arrive)]
+        if len(inst) != 1:
+            continue
+        lid, l = inst[0]
+        if l["to"] is None or l["kind"] != "unspec":
+            continue
+        taken = [x for x in accepts if x["host"] == dst and x["lid"] == lid and x["peer"] == [src, sport]
+                 and x["step"] <= l["to"]]
+        if taken:
+            continue
+        later = [(k, r) for (k, r) in c["results"] if k > l["to"]]
+        if later and later[0][1] != ["err", "ConnectionRefused"] and not (
+                isinstance(later[0][1], list) and later[0][1][0] == "err" and later[0][1][1] == "TimedOut"):
+            out.append(("connect %d was queued at listener %d of host %d, which was dropped at step %d without accepting "
+                        "it, but the next poll (step %d) returned %s" % (cid, lid, dst, l["to"], later[0][0], later[0][1]),
+                        None))
+    # ---- a connector queued at a listener that stays bound is not refused -------------------------------
+    for cid, sy in syn_of.items():
+        src, sport, dport, a, b, k0 = sy
+        c = conn[cid]
+        last = syn_seen.get((src, sport, dport, a, b))
+        if last is None or last + 1 >= len(obs["post"]) or parts.get((a, b)):
+            continue
+        arrive = last + 1
+        dst = b if src == a else a
+        inst = [(lid, l) for (h, lid), l in listeners.items()
+                if h == dst and l["port"] == dport and l["from"] < arrive and (l["to"] is None or l["to"] >= arrive)]
+        if len(inst) != 1 or inst[0][1]["kind"] != "unspec":
+            continue
+        lid, l = inst[0]
+        for (k, r) in c["results"]:
+            if k > arrive and r == ["err", "ConnectionRefused"] and (l["to"] is None or l["to"] > k):
+                out.append(("connect %d (host %d port %d) was refused at step %d although its request reached listener %d "
+                            "of host %d at step %d and that listener is still bound" % (cid, src, sport, k, lid, dst, arrive),
+                            None))
+                break
+    # ---- loopback connectors and a listener that is dropped / stays -------------------------------------
+    for cid, c in conn.items():
+        own = (not isinstance(c["dst"], dict) and c["dst"] == "loop") or (
+            isinstance(c["dst"], dict) and c["dst"].get("h", c["dst"].get("name")) == c["host"])
+        if not own:
+            continue
+        h = c["host"]
+        arrive = c["step"] + 1              # the delivery task runs at the end of the next step
+        inst = [(lid, l) for (hh, lid), l in listeners.items()
+                if hh == h and l["port"] == c["port"] and l["from"] <= arrive and (l["to"] is None or l["to"] > arrive)
+                and (l["kind"] == "unspec" or c["dst"] == "loop")]
+        if len(inst) != 1:
+            continue
+        lid, l = inst[0]
+        acc_here = [x for x in accepts if x["host"] == h and x["lid"] == lid and x["step"] > arrive]
+        if l["to"] is not None and not [x for x in acc_here if x["step"] <= l["to"]]:
+            later = [(k, r) for (k, r) in c["results"] if k > l["to"]]
+            if later and later[0][1] == "pending":
+                out.append(("connect %d (same host %d) was queued at listener %d, which was dropped at step %d without "
+                            "accepting anything, but it still pends at step %d" % (cid, h, lid, l["to"], later[0][0]), None))
+        if l["to"] is None:
+            for (k, r) in c["results"]:
+                if k > arrive + 1 and r == ["err", "ConnectionRefused"]:
+                    out.append(("connect %d (same host %d) was refused at step %d although listener %d is bound since "
+                                "step %d and is never dropped" % (cid, h, k, lid, l["from"]), None))
+                    break
+    # ---- exact table sizes while nothing can have been reset ---------------------------------------------
+    if not loop_used:
+        held_all = False
+        live2 = {h: set() for h in range(n)}
+        pend2 = {h: set() for h in range(n)}
+        dirty = False
+        for k, st in enumerate(case["steps"]):
+            for act in st["ctl"]:
+                if act[0] in ("release", "partition", "partition_oneway"):
+                    dirty = True
+                if act[0] == "deliver":
+                    # delivering anything but a SYN may reset an entry
+                    for a, b, msgs in (obs["post"][k - 1][0] if k else []):
+                        if {a, b} == {act[1], act[2]} and act[3] < len(msgs) and msgs[act[3]][1] != "syn":
+                            dirty = True
+            if k == 0:
+                pairs_held = {(min(a[1], a[2]), max(a[1], a[2])) for a in st["ctl"] if a[0] == "hold"}
+                held_all = len(pairs_held) == n * (n - 1) // 2
+            for h in range(n):
+                for i, cmd in enumerate(st.get("hosts", {}).get(str(h), [])):
+                    r = res.get((k, h, i))
+                    nm = cmd[0]
+                    if nm in ("connect", "connect_t"):
+                        if r == "pending":
+                            pend2[h].add(cmd[1])
+                        elif ok(r, 3):
+                            live2[h].add(cmd[1])
+                    elif nm == "poll" and cmd[1] in pend2[h] and r != "pending":
+                        pend2[h].discard(cmd[1])
+                        if ok(r, 3):
+                            live2[h].add(cmd[1])
+                    elif nm == "cancel" and r == "none":
+                        pend2[h].discard(cmd[1])
+                    elif nm == "accept" and ok(r, 4):
+                        live2[h].add(cmd[2])
+                    elif nm == "drop" and r == "none":
+                        live2[h].discard(cmd[1])
+            if held_all and not dirty:
+                for h in range(n):
+                    want = len(live2[h]) + len(pend2[h])
+                    if obs["post"][k][1][h][1] != want:
+                        out.append(("after step %d host %d has %d stream entries but its program holds %d streams and %d "
+                                    "pending connects (links held, nothing but SYNs delivered)"
+                                    % (k, h, obs["post"][k][1][h][1], len(live2[h]), len(pend2[h])), None))
+                        dirty = True
+                        break
     # ---- accept order (FIFO among connectors that still wait) --------------------------------------
     arrival = {}         # (dst host, dport) -> list of (arrive step, link order, position, src, sport)
     prev = None
@@ -249,10 +421,12 @@ class Spec(PropSpec):
         cases = []
         for i in range(n):
             r = i % 10
-            if r < 6:
+            if r < 5:
                 cases.append(F.gen_handshake(ctx.rng))
-            elif r < 9:
+            elif r < 7:
                 cases.append(F.gen_fifo(ctx.rng))
+            elif r < 9:
+                cases.append(F.gen_listener_drop(ctx.rng))
             else:
                 cases.append(F.gen_residue(ctx.rng))
         return cases
